@@ -56,6 +56,28 @@ func (t *tree) elem() rlp.Element {
 	}
 	return l
 }
+// elemArena builds the same element with every string a sub-slice of one shared arena (consecutive,
+// cap > len): an encoder that appends to or writes through a slice of the tree clobbers a sibling
+func (t *tree) elemArena(a *cv.Arena) rlp.Element {
+	if !t.list {
+		return rlp.Data(a.Put(t.data.Expand()))
+	}
+	l := make(rlp.List, len(t.kids), len(t.kids)+2)
+	for i, k := range t.kids {
+		l[i] = k.elemArena(a)
+	}
+	return l
+}
+func (t *tree) dataLen() int {
+	if !t.list {
+		return t.data.Len()
+	}
+	n := 0
+	for _, k := range t.kids {
+		n += k.dataLen()
+	}
+	return n
+}
 func (t *tree) depth() int {
 	d := 0
 	for _, k := range t.kids {
@@ -346,6 +368,19 @@ func addEnc(w *cv.Writer, st *cv.Stats, t *tree, trail cv.DSL, seen map[string]b
 	if p {
 		st.ImplFailures = append(st.ImplFailures, map[string]string{"what": "Encode panicked", "tree": t.describe()})
 		return
+	}
+	if n := t.dataLen(); n <= 1<<16 {
+		// the same tree with all its strings carved out of one arena (aliasing / spare-capacity inputs)
+		ar := cv.NewArena(n + 64)
+		ea := t.elemArena(ar)
+		snap := ar.Snapshot()
+		for rep := 0; rep < 2; rep++ {
+			enc2, p2 := safeEncode(ea)
+			if p2 || !bytes.Equal(enc2, enc) || !ar.Unchanged(snap) || !equalElem(ea, eCopy) {
+				st.ImplFailures = append(st.ImplFailures, map[string]interface{}{"what": "Encode of a tree whose strings share one backing array (cap > len) differs from the encoding of the same tree with separately allocated strings, or wrote into its input", "tree": t.describe(), "repeat": rep})
+				break
+			}
+		}
 	}
 	in := append(append([]byte{}, enc...), trail.Expand()...)
 	d, pos, err, pan := safeDecode(in)
